@@ -43,6 +43,9 @@ def body(run):
         run.count_case((res['geom'], proc, ov, mbm), nblk >= 4,
                        dict(geom=res['geom'], proc_crs=proc, overlap=list(ov), max_block_mem=mbm, blocks=nblk,
                             first_block=res['blocks'][0]))
+        if not res.get('repeat_same', True):
+            run.add_violation('block_pairs() yields different blocks on a second iteration of the same open reader',
+                              dict(geom=res['geom'], proc_crs=proc, overlap=list(ov), max_block_mem=mbm), signature=dict(kind='tiling', what='repeat differs'))
         # independent oracle on the implementation's windows (search), always on
         for v in impl_windows.tiling_oracle(res):
             sig = dict(kind='tiling', what=v['what'])
